@@ -3162,7 +3162,13 @@ pub fn matrix_column_elements(&mut self, column_elements: &[&MatrixColumn]) -> S
     if self.html {
       format!("<span class=\"mech-string\">\"{}\"</span>", node.text.to_string())
     } else {
-      format!("\"{}\"", node.text.to_string())
+      let text = node.text.to_string();
+      if text.contains('"') || text.contains('\\') {
+        // only a raw string can hold quotes and backslashes verbatim
+        format!("\"\"\"{}\"\"\"", text)
+      } else {
+        format!("\"{}\"", text)
+      }
     }
   }
 
